@@ -216,6 +216,25 @@ def _leading_walrus(t: ast.expr) -> T.Optional[ast.NamedExpr]:
 
 def _desugar_stmt(st: ast.stmt, nxt: T.Optional[ast.stmt]) -> T.Optional[T.Tuple[T.List[ast.stmt], bool]]:
     """(replacement statements, whether `nxt` was consumed) or None"""
+    # v = TABLE.get(k[, d]) with TABLE a small constant table of the module  ->  if k == c1: v = x1 elif ...: else: v = d   (catalogue B5)
+    if isinstance(st, (ast.Assign, ast.AnnAssign)) and st.value is not None and isinstance(st.value, ast.Call) and isinstance(st.value.func, ast.Attribute) \
+            and st.value.func.attr == 'get' and isinstance(st.value.func.value, ast.Name) and st.value.func.value.id in _TABLES \
+            and 1 <= len(st.value.args) <= 2 and not st.value.keywords:
+        tgt = st.targets[0] if isinstance(st, ast.Assign) and len(st.targets) == 1 else (st.target if isinstance(st, ast.AnnAssign) else None)
+        if isinstance(tgt, ast.Name):
+            tab = _TABLES[st.value.func.value.id]
+            k = st.value.args[0]
+            dflt = st.value.args[1] if len(st.value.args) == 2 else ast.Constant(value=None)
+
+            def asg(v: ast.expr) -> ast.stmt:
+                return ast.Assign(targets=[ast.Name(id=tgt.id, ctx=ast.Store())], value=v, type_comment=None)
+            chain: T.List[ast.stmt] = [asg(dflt)]
+            for ck, cv in reversed(list(zip(tab.keys, tab.values))):
+                chain = [ast.If(test=ast.Compare(left=copy.deepcopy(k), ops=[ast.Eq()], comparators=[ck]), body=[asg(cv)], orelse=chain)]
+            for x in chain:
+                ast.copy_location(x, st)
+                ast.fix_missing_locations(x)
+            return chain, False
     # for t in (a, b, c): BODY   ->   t = a; BODY; t = b; BODY; t = c; BODY        (a display: finite, declared in the source)
     if isinstance(st, ast.For) and not st.orelse and isinstance(st.iter, (ast.Tuple, ast.List)) and 1 <= len(st.iter.elts) <= 6 \
             and not any(isinstance(x, ast.Starred) for x in st.iter.elts) and not _has_loop_exit(st.body):
@@ -348,8 +367,28 @@ def _inline_named_conditions(body: T.List[ast.stmt]) -> None:
                 defs[st.targets[0].id] = (st.value, reads)
 
 
+def _inline_display_locals(body: T.List[ast.stmt]) -> None:
+    """`seq = (a, b)` ... `for x in seq:`  ->  `for x in (a, b):` when seq and what it reads are not re-bound in between"""
+    defs: T.Dict[str, T.Tuple[ast.expr, T.Set[str]]] = {}
+    for st in body:
+        if isinstance(st, ast.For) and isinstance(st.iter, ast.Name) and st.iter.id in defs:
+            st.iter = copy.deepcopy(defs[st.iter.id][0])
+        stored = {n.id for n in ast.walk(st) if isinstance(n, ast.Name) and isinstance(n.ctx, (ast.Store, ast.Del))}
+        mutated = stored | {n.func.value.id for n in ast.walk(st) if isinstance(n, ast.Call) and isinstance(n.func, ast.Attribute) and isinstance(n.func.value, ast.Name)}
+        for k in [k for k, (_, reads) in defs.items() if k in mutated or reads & stored]:
+            del defs[k]
+        tgt = val = None
+        if isinstance(st, ast.Assign) and len(st.targets) == 1 and isinstance(st.targets[0], ast.Name):
+            tgt, val = st.targets[0].id, st.value
+        elif isinstance(st, ast.AnnAssign) and isinstance(st.target, ast.Name) and st.value is not None:
+            tgt, val = st.target.id, st.value
+        if tgt and isinstance(val, (ast.Tuple, ast.List)) and not any(isinstance(x, ast.Starred) for x in val.elts):
+            defs[tgt] = (val, {n.id for n in ast.walk(val) if isinstance(n, ast.Name)})
+
+
 def _fuse_block(body: T.List[ast.stmt]) -> T.List[ast.stmt]:
     _inline_named_conditions(body)
+    _inline_display_locals(body)
     out: T.List[ast.stmt] = []
     i = 0
     while i < len(body):
@@ -516,6 +555,33 @@ def _inline_call(call: ast.Call, owner: T.Tuple[T.Any, str], stack: T.Tuple[str,
     return _inline_block(out, (owner[0], q), stack + (q,))
 
 
+def _hoist_nested_helper_calls(st: ast.stmt, owner: T.Tuple[T.Any, str]) -> T.List[ast.stmt]:
+    """`f(g(_h(a)))` -> `tmp = _h(a); f(g(tmp))` for private helpers `_h` that are evaluated unconditionally inside the
+    statement (not under and/or, a conditional expression, a lambda or a comprehension); the statement is changed in place."""
+    pre: T.List[ast.stmt] = []
+    top = st.value  # type: ignore[attr-defined]
+
+    def visit(e: ast.AST, is_top: bool) -> ast.AST:
+        if isinstance(e, (ast.BoolOp, ast.IfExp, ast.Lambda, ast.ListComp, ast.SetComp, ast.DictComp, ast.GeneratorExp, ast.JoinedStr)):
+            return e
+        for name, old in ast.iter_fields(e):
+            if isinstance(old, list):
+                setattr(e, name, [visit(x, False) if isinstance(x, ast.AST) else x for x in old])
+            elif isinstance(old, ast.AST):
+                setattr(e, name, visit(old, False))
+        if isinstance(e, ast.Call) and not is_top and _find_helper(e, owner) is not None:
+            _UNIQ[0] += 1
+            tmp = f'arg__h{_UNIQ[0]}'
+            a = ast.Assign(targets=[ast.Name(id=tmp, ctx=ast.Store())], value=e, type_comment=None)
+            ast.copy_location(a, st)
+            ast.fix_missing_locations(a)
+            pre.append(a)
+            return ast.copy_location(ast.Name(id=tmp, ctx=ast.Load()), e)
+        return e
+    visit(top, True)
+    return pre
+
+
 def _inline_block(body: T.List[ast.stmt], owner: T.Tuple[T.Any, str], stack: T.Tuple[str, ...]) -> T.List[ast.stmt]:
     out: T.List[ast.stmt] = []
     for st in body:
@@ -529,6 +595,10 @@ def _inline_block(body: T.List[ast.stmt], owner: T.Tuple[T.Any, str], stack: T.T
         for h in getattr(st, 'handlers', []) or []:
             h.body = _inline_block(h.body, owner, stack)
         rep: T.Optional[T.List[ast.stmt]] = None
+        if isinstance(st, (ast.Expr, ast.Assign, ast.AnnAssign, ast.AugAssign, ast.Return)) and getattr(st, 'value', None) is not None:
+            hoisted = _hoist_nested_helper_calls(st, owner)
+            if hoisted:
+                out.extend(_inline_block(hoisted, owner, stack))
         if isinstance(st, ast.Expr) and isinstance(st.value, ast.Call):
             rep = _inline_call(st.value, owner, stack, lambda v: [ast.Expr(value=v)] if isinstance(v, ast.Call) else [])
         elif isinstance(st, ast.Assign) and isinstance(st.value, ast.Call):
@@ -587,6 +657,7 @@ _SIG_KEY: T.Tuple[str, ...] = ()
 _SIG_MODS: T.List[T.Any] = []
 
 
+_TABLES: T.Dict[str, ast.Dict] = {}            # module-level NAME = {const: const, ...}, assigned once
 _CONSTS: T.Dict[str, ast.Constant] = {}        # module-level NAME = <literal>, assigned once
 _CLASS_CONSTS: T.Dict[str, ast.Constant] = {}  # class-level NAME = <literal>, unique over the classes of the modules
 
@@ -607,6 +678,12 @@ def _collect_constants(m: T.Any) -> None:
                 into[tgt] = val
             else:
                 into.pop(tgt, None)
+            if into is _CONSTS:
+                if isinstance(val, ast.Dict) and seen[tgt] == 1 and 1 <= len(val.keys) <= 8 and all(isinstance(k, ast.Constant) for k in val.keys) \
+                        and all(isinstance(v, ast.Constant) for v in val.values):
+                    _TABLES[tgt] = val
+                else:
+                    _TABLES.pop(tgt, None)
     scan(m.tree.body, _CONSTS)
     for n in ast.walk(m.tree):
         if isinstance(n, (ast.FunctionDef, ast.AsyncFunctionDef)):
@@ -631,6 +708,7 @@ def set_signatures(*mods: T.Any) -> None:
     _OWNER.clear()
     _CONSTS.clear()
     _CLASS_CONSTS.clear()
+    _TABLES.clear()
     for m in mods:
         _collect_constants(m)
         _CLASSES.update(q for q in m.classes() if '.' not in q)
@@ -816,6 +894,7 @@ class SRow:
         self.value: T.Optional[ast.AST] = None      # substituted return value / raised expression
         self.path: T.Optional[Path] = None
         self.env: T.Dict[str, ast.AST] = {}
+        self.unentered = False        # some loop on this path ran zero times (the same path with the loop entered exists too)
 
     def effects(self, *kinds: str) -> T.List[Fx]:
         return [f for f in self.fx if f.kind in kinds] if kinds else list(self.fx)
@@ -1001,6 +1080,8 @@ class Sym:
                 assert st is not None
                 if id(st) not in seen_loops:
                     seen_loops.add(id(st))
+                    if ev.val == 'done':
+                        row.unentered = True
                     if self.entered_only and ev.val == 'done':
                         return None
                 if ev.val == 'iter':
